@@ -5,6 +5,7 @@
 // linked as lin_* — see C10_linheap_pre.h), heap_enum (exhaustive short
 // histories). Oracle: a shadow map of the live blocks {address, size, fill}.
 #include "vpbt.h"
+#include <sys/mman.h>
 
 #include <algorithm>
 #include <array>
@@ -832,6 +833,94 @@ static size_t heap_size(Src &s)
         return s.pick(special);
     return (size_t)s.range(0, 4096);
 }
+
+// Requests of 2 GiB and more (size_t is 64 bits wide on this host; the allocator's arithmetic must be too). The arena
+// is a 12 GiB MAP_NORESERVE mapping of which only the chunk headers and a few bytes per block are ever touched. Only
+// addresses are compared for the big blocks: inside the arena, no overlap with any other live block, and after freeing
+// everything the break is back at the start.
+static void heap_huge_target(Src &s, Case &c)
+{
+    static char *arena = nullptr;
+    static const size_t HUGE = 12ull << 30;
+    if (!arena)
+    {
+        void *m = mmap(nullptr, HUGE, PROT_READ | PROT_WRITE, MAP_PRIVATE | MAP_ANONYMOUS | MAP_NORESERVE, -1, 0);
+        if (m == MAP_FAILED)
+            throw Discard{};
+        arena = (char *)m;
+    }
+    __brkval = nullptr;
+    __flp = nullptr;
+    __allocation_counter = 0;
+    __malloc_heap_start = arena;
+    struct B
+    {
+        char *p;
+        size_t sz;
+    };
+    std::vector<B> live;
+    size_t used = 0;
+    int n = (int)s.range(2, 6);
+    c.log("huge heap: ");
+    for (int i = 0; i < n; i++)
+    {
+        size_t sz;
+        switch (s.weighted({3, 3, 1}))
+        {
+        case 0:
+            sz = (size_t)s.pick<uint64_t>({(1ull << 32) - 64, (1ull << 32) - 63, (1ull << 32) - 16, 1ull << 32, (1ull << 32) + 100, (1ull << 31), (1ull << 31) + 1, 5ull << 30,
+                                           3ull << 30});
+            break;
+        case 1:
+            sz = (size_t)s.pick({8, 64, 100, 4096});
+            break;
+        default:
+            sz = (size_t)s.range(1, 1 << 20);
+        }
+        if (used + sz + 4096 > HUGE - (1ull << 20))
+            continue;
+        char *p = (char *)lin_malloc(sz);
+        c.log("malloc(%zu)=arena+%td ", sz, p ? p - arena : (ptrdiff_t)-1);
+        VP_CHECK(p != nullptr, "heap_huge_null", "malloc(%zu) returned NULL with %zu bytes in use of a 12 GiB arena", sz, used);
+        VP_CHECK(p >= arena && p + sz <= arena + HUGE, "heap_huge_outside", "malloc(%zu) = arena+%td: outside the arena", sz, p - arena);
+        VP_CHECK((uintptr_t)p % 8 == 0, "heap_huge_misaligned", "malloc(%zu) = %p", sz, (void *)p);
+        for (auto &b : live)
+            VP_CHECK(p + sz <= b.p || b.p + b.sz <= p, "heap_huge_overlap", "malloc(%zu) = arena+%td overlaps the live block of %zu bytes at arena+%td", sz, p - arena, b.sz,
+                     b.p - arena);
+        // first and last byte carry a mark that must survive
+        p[0] = (char)(0x40 + (int)live.size());
+        if (sz > 1)
+            p[sz - 1] = (char)(0x60 + (int)live.size());
+        live.push_back(B{p, sz});
+        used += sz + 128;
+        if (sz >= (1ull << 31))
+            c.label("request>=2GiB");
+        if (sz >= (1ull << 32) - 64)
+            c.label("request_around_4GiB");
+    }
+    for (size_t i = 0; i < live.size(); i++)
+        VP_CHECK(live[i].p[0] == (char)(0x40 + (int)i) && (live[i].sz < 2 || live[i].p[live[i].sz - 1] == (char)(0x60 + (int)i)), "heap_huge_content",
+                 "the marks at the ends of block %zu (%zu bytes) changed", i, live[i].sz);
+    c.nontrivial = live.size() >= 2;
+    // free in a drawn order
+    while (!live.empty())
+    {
+        size_t k = (size_t)s.below(live.size());
+        c.log("free(arena+%td) ", live[k].p - arena);
+        lin_free(live[k].p);
+        live.erase(live.begin() + (long)k);
+    }
+    VP_CHECK(__flp == nullptr && (__brkval == nullptr || __brkval == arena), "heap_huge_break", "everything freed but __flp=%p, __brkval = arena+%td", (void *)__flp,
+             __brkval ? __brkval - arena : (ptrdiff_t)0);
+    // leave the allocator pointing at the ordinary arena again
+    __brkval = nullptr;
+    __flp = nullptr;
+    __allocation_counter = 0;
+    __malloc_heap_start = _heap_start;
+}
+VP_TARGET("heap_huge", heap_huge_target,
+          "malloc/free on a 12 GiB (MAP_NORESERVE) arena: 2..6 requests from {2^31, 2^31+1, 3 GiB, 2^32-64, 2^32-63, 2^32-16, 2^32, 2^32+100, 5 GiB}, small sizes and 1..2^20, "
+          "freed in a drawn order: non-null, inside the arena, 8-aligned, no overlap with any live block (addresses only), marks at both ends intact, break restored");
 
 static void heap_target(Src &s, Case &c)
 {
